@@ -53,6 +53,10 @@ def P(name):
 
 
 def fld(base, name):
+    if base[0] == "tuple" and name.isdigit() and int(name) < len(base[1]):
+        return base[1][int(name)]
+    if base[0] == "ite":
+        return ite(base[1], fld(base[2], name), fld(base[3], name))
     if base[0] == "adt":
         for n, v in base[3]:
             if n == name:
@@ -342,6 +346,7 @@ class Evaluator:
         self.steps = 0
         self.asserts = []       # (fn path, assert kind, cond term, path-condition) encountered
         self.fresh = 0
+        self.stop = None        # (fn path, loop head, body set, tracked locals) for eval_loop_body
 
     # ---- entry points
     def eval_fn(self, path, args, depth=0):
@@ -356,6 +361,18 @@ class Evaluator:
         for i, a in enumerate(args):
             env[i + 1] = a
         return self._run(fn, 0, env, {}, depth)
+
+    def eval_loop_body(self, fn, head, body, tracked, env0=None):
+        """one iteration of a natural loop, symbolically: evaluates from the loop head with every local bound to
+        a fresh atom `L<i>`; leaves are ('next', (values of the tracked locals at the back edge...)) or ('exit', block)"""
+        env = {i: P("L%d" % i) for i in range(len(fn.locals))}
+        if env0:
+            env.update(env0)
+        self.stop = (fn.path, head, set(body), tuple(tracked))
+        try:
+            return self._run(fn, head, env, {}, 0)
+        finally:
+            self.stop = None
 
     def eval_self_fn(self, path):
         """evaluate a method with symbolic parameters named after the MIR argument names"""
@@ -530,6 +547,11 @@ class Evaluator:
             self.steps += 1
             if self.steps > MAXSTEPS:
                 raise Undecided("step budget exceeded in " + fn.path)
+            if self.stop is not None and fn.path == self.stop[0]:
+                if bb == self.stop[1] and visits.get(bb, 0) >= 1:
+                    return ("next", tuple(env.get(l, ("uninit",)) for l in self.stop[3]))
+                if bb not in self.stop[2]:
+                    return ("exit", bb)
             visits = dict(visits)
             visits[bb] = visits.get(bb, 0) + 1
             if visits[bb] > 70:
